@@ -18,10 +18,12 @@ CONSTANTS
   M_CapPerSource = TRUE
   M_InvertAfterShortcut = TRUE
   M_LowerCopies = TRUE
+  M_ErrClearedBeforeDecode = TRUE
+  M_SubjectPerException = TRUE
   MSyms = {1, 2}
   MDataMax = 3
   MValMax = 2
   MCi = {FALSE}
   MPairLens = {1, 2}
-INVARIANTS TypeOK RefusedOnlyIf CutIsPrefix WithinLimitUntouched MatchAgrees DataUnchanged DisabledNeverDrops ExceptionNeverDrops SpamOnlyIfBanned BanOnlyAfterThreshold UnbanWithin VerdictDetermined
+INVARIANTS TypeOK RefusedOnlyIf CutIsPrefix WithinLimitUntouched MatchAgrees DataUnchanged CriAdmitted CriVerdictIgnoresAntispam ExceptionListExempts DisabledNeverDrops ExceptionNeverDrops SpamOnlyIfBanned BanOnlyAfterThreshold UnbanWithin VerdictDetermined
 CHECK_DEADLOCK FALSE
